@@ -438,10 +438,10 @@ func c10r3(c *core.Ctx) {
 			return // len(c.valueChangeFuncs) of a range loop is not a dispatch
 		}
 		for _, a := range cc.Args {
-			if _, ok := core.FieldLoad(a, tChar, "connValueUpdateFuncs"); ok {
+			if isCallbackSlice(a, "connValueUpdateFuncs") {
 				fanouts = append(fanouts, i)
 			}
-			if _, ok := core.FieldLoad(a, tChar, "valueChangeFuncs"); ok {
+			if isCallbackSlice(a, "valueChangeFuncs") {
 				fanouts = append(fanouts, i)
 			}
 		}
